@@ -332,25 +332,35 @@ func VerifC23Accept() {
 // ---------------------------------------------------------------------------------------
 
 type verifC23spec struct {
-	name, typ, def, desc      string
-	hasType, hasDef, hasDesc  bool
-	optional                  bool
+	name, typ, def, desc     string
+	hasType, hasDef, hasDesc bool
+	optional                 bool
 }
 
-func verifC23identBytes(b []byte) {
-	for i := range b {
-		c := b[i]
-		rt.Assume(rt.Or(rt.Or(rt.And(c >= 'a', c <= 'z'), rt.And(c >= 'A', c <= 'Z')),
-			rt.Or(rt.And(c >= '0', c <= '9'), rt.Or(c == '_', c == '-'))))
+// verifC23content: m symbolic characters for a default value / description. Alphabet: blank,
+// tab, lower-case letters and every ASCII punctuation or control character except CR, LF and
+// the field's own terminator (upper-case letters, digits, `_` and `-` are left to
+// VerifC23Accept: each costs the engine a separate path per character and field).
+func verifC23content(name string, m int, terminator byte) string {
+	b := rt.Bytes(name, m)
+	for j := range b {
+		c := b[j]
+		rt.Assume(rt.And(c < 0x80, rt.And(c != '\r', rt.And(c != '\n', c != terminator))))
+		rt.Assume(rt.Not(rt.Or(rt.And(c >= 'A', c <= 'Z'), rt.Or(rt.And(c >= '0', c <= '9'), rt.Or(c == '_', c == '-')))))
 	}
+	return string(b)
 }
 
-// VerifC23RoundTrip: k parameters with symbolic names, types, defaults, descriptions and
-// optional markers are written in the documented layout, parsed by the real parser and must
-// come back field for field.
+// VerifC23RoundTrip: 1..k parameters are written in the documented layout, parsed by the real
+// parser and must come back field for field. Shape (bare name / typed / default / description /
+// both) and optional marker of every parameter are free; one parameter (free choice) carries
+// symbolic text: first name character over the whole identifier alphabet, second name and type
+// characters lower-case letters, default and description of m symbolic characters each; the
+// others carry fixed punctuation-rich texts.
 func VerifC23RoundTrip() {
 	k := 1 + rt.Choice("params", rt.Param("k"))
 	m := rt.Param("m")
+	focus := rt.Choice("focus", k)
 	specs := make([]verifC23spec, k)
 	text := ""
 	mandatoryAfterOptional := false
@@ -363,33 +373,42 @@ func VerifC23RoundTrip() {
 		} else if seenOptional {
 			mandatoryAfterOptional = true
 		}
-		nb := rt.Bytes("name", 1+rt.Choice("namelen", 2))
-		verifC23identBytes(nb)
-		sp.name = string(nb)
-		sp.hasType = rt.Choice("hastype", 2) == 1
-		if sp.hasType {
-			tb := rt.Bytes("type", 1+rt.Choice("typelen", 2))
-			verifC23identBytes(tb)
-			sp.typ = string(tb)
-			sp.hasDef = rt.Choice("hasdefault", 2) == 1
-			if sp.hasDef {
-				db := rt.Bytes("default", rt.Choice("defaultlen", m+1))
-				for j := range db {
-					c := db[j]
-					rt.Assume(rt.And(c < 0x80, rt.And(c != '\r', rt.And(c != '\n', c != ']'))))
-				}
-				sp.def = string(db)
+		shape := rt.Choice("shape", 5) // 0 bare, 1 typed, 2 typed+default, 3 typed+description, 4 both
+		sp.hasType = shape >= 1
+		sp.hasDef = shape == 2 || shape == 4
+		sp.hasDesc = shape == 3 || shape == 4
+		if i == focus {
+			nb := rt.Bytes("name", 2)
+			c := nb[0]
+			rt.Assume(rt.Or(rt.Or(rt.And(c >= 'a', c <= 'z'), rt.And(c >= 'A', c <= 'Z')),
+				rt.Or(rt.And(c >= '0', c <= '9'), rt.Or(c == '_', c == '-'))))
+			rt.Assume(rt.And(nb[1] >= 'a', nb[1] <= 'z'))
+			sp.name = string(nb)
+			if sp.hasType {
+				tb := rt.Bytes("type", 2)
+				rt.Assume(rt.And(tb[0] >= 'a', tb[0] <= 'z'))
+				rt.Assume(rt.And(tb[1] >= 'a', tb[1] <= 'z'))
+				sp.typ = string(tb)
 			}
-			sp.hasDesc = rt.Choice("hasdesc", 2) == 1
+			if sp.hasDef {
+				sp.def = verifC23content("default", m, ']')
+			}
 			if sp.hasDesc {
-				db := rt.Bytes("desc", rt.Choice("desclen", m+1))
-				for j := range db {
-					c := db[j]
-					rt.Assume(rt.And(c < 0x80, rt.And(c != '\r', rt.And(c != '\n', c != '"'))))
-				}
-				sp.desc = string(db)
+				sp.desc = verifC23content("desc", m, '"')
 			}
 		} else {
+			sp.name = []string{"Var-1", "v_2", "x"}[i%3]
+			if sp.hasType {
+				sp.typ = []string{"int", "data-type", "str"}[i%3]
+			}
+			if sp.hasDef {
+				sp.def = []string{`a, b: "c" [d !`, ``, `10`}[i%3]
+			}
+			if sp.hasDesc {
+				sp.desc = []string{`How old, [roughly]: are you?!`, ``, `x`}[i%3]
+			}
+		}
+		if !sp.hasType {
 			sp.typ = types.String
 		}
 
@@ -418,7 +437,6 @@ func VerifC23RoundTrip() {
 			}
 		}
 	}
-	rt.Note("signature: " + text)
 
 	// known finding: a tab inside a default or description is stored as a blank
 	tab := false
@@ -431,6 +449,8 @@ func VerifC23RoundTrip() {
 		}
 	}
 	verifC23known("C23-tab-becomes-blank", tab)
+	// (the layout above puts a new line only after a default/description or a bare name's comma,
+	// never directly after a type: `name: type,\n` - so C23-newline-after-type is not involved)
 
 	mfp, err := ParseMxFunctionParameters(text)
 	if mandatoryAfterOptional {
@@ -456,8 +476,9 @@ func VerifC23RoundTrip() {
 // Binding
 // ---------------------------------------------------------------------------------------
 
-// verifC23pool: argument texts for typed parameters and what the statement requires of them.
-// conv: 0 = not convertible to a number, 1 = convertible.
+// verifC23pool: argument texts and what "converted to the declared type" means for them
+// (docs/commands/function.md: `age 1.2` binds int 1, `age ten` fails; bool = murex truth value
+// of the text).
 var verifC23pool = []struct {
 	text   string
 	isNum  bool
@@ -466,13 +487,28 @@ var verifC23pool = []struct {
 	truthy bool
 }{
 	{"7", true, 7, 7, true},
-	{"-3", true, -3, -3, true},
-	{"1.5", true, 1, 1.5, true},
-	{"0", true, 0, 0, false},
+	{"-1.5", true, -1, -1.5, true},
 	{"ten", false, 0, 0, true},
 	{"false", false, 0, 0, false},
-	{"true", false, 0, 0, true},
-	{"1x", false, 0, 0, true},
+}
+
+// verifC23decls: declarations a parameter is drawn from.
+var verifC23decls = []struct {
+	typ                  string
+	optional, hasDefault bool
+	def                  int // index into the pool; -1 = symbolic text (str)
+}{
+	{types.String, false, false, 0},
+	{types.String, true, false, 0},
+	{types.String, true, true, -1},
+	{types.Integer, false, false, 0},
+	{types.Integer, true, false, 0},
+	{types.Integer, true, true, 0}, // [7]
+	{types.Integer, true, true, 2}, // [ten]: a default that cannot be converted
+	{types.Number, false, false, 0},
+	{types.Number, true, true, 1}, // [-1.5]
+	{types.Boolean, false, false, 0},
+	{types.Boolean, true, true, 3}, // [false]
 }
 
 func verifC23process(args []string) *Process {
@@ -489,33 +525,40 @@ func verifC23process(args []string) *Process {
 	return p
 }
 
-// VerifC23Bind: a function with k declared parameters (type, optional marker, default all
-// symbolic choices) is called with a symbolic number of arguments; str arguments have symbolic
-// bytes, typed arguments come from a pool of convertible and unconvertible texts.
+func verifC23poolIndex(text string) int {
+	for j := range verifC23pool {
+		if verifC23pool[j].text == text {
+			return j
+		}
+	}
+	return -1
+}
+
+// VerifC23Bind: a function with 1..k declared parameters (each drawn from verifC23decls) is
+// called with 0..k arguments; str arguments and defaults have m symbolic bytes, typed ones come
+// from a pool of convertible and unconvertible texts.
 func VerifC23Bind() {
 	k := 1 + rt.Choice("params", rt.Param("k"))
+	m := rt.Param("m")
 	names := []string{"alpha", "beta", "gamma", "delta", "eps"}
-	typesOf := []string{types.String, types.Integer, types.Number, types.Boolean}
 
 	mfd := new(murexFuncDetails)
 	seenOptional := false
 	for i := 0; i < k; i++ {
-		prm := MurexFuncParam{Name: names[i]}
-		prm.DataType = typesOf[rt.Choice("type", len(typesOf))]
-		prm.Optional = rt.Choice("optional", 2) == 1
-		if prm.Optional {
+		d := verifC23decls[rt.Choice("decl", len(verifC23decls))]
+		prm := MurexFuncParam{Name: names[i], DataType: d.typ, Optional: d.optional, HasDefault: d.hasDefault}
+		if d.optional {
 			seenOptional = true
-			prm.HasDefault = rt.Choice("hasdefault", 2) == 1
-			if prm.HasDefault {
-				if prm.DataType == types.String {
-					prm.Default = rt.String("default", rt.Param("m"))
-				} else {
-					prm.Default = verifC23pool[rt.Choice("defaultpool", len(verifC23pool))].text
-				}
-			}
 		} else {
 			// the parser never yields a mandatory parameter after an optional one
 			rt.Assume(!seenOptional)
+		}
+		if d.hasDefault {
+			if d.def < 0 {
+				prm.Default = rt.String("default", m)
+			} else {
+				prm.Default = verifC23pool[d.def].text
+			}
 		}
 		mfd.Parameters = append(mfd.Parameters, prm)
 	}
@@ -524,7 +567,7 @@ func VerifC23Bind() {
 	args := make([]string, nargs)
 	for i := 0; i < nargs; i++ {
 		if mfd.Parameters[i].DataType == types.String {
-			args[i] = rt.String("arg", rt.Param("m"))
+			args[i] = rt.String("arg", m)
 		} else {
 			args[i] = verifC23pool[rt.Choice("argpool", len(verifC23pool))].text
 		}
@@ -534,37 +577,30 @@ func VerifC23Bind() {
 	err := mfd.castParameters(p)
 	rt.Reach("cast-returned")
 
-	// model from the statement
+	// the statement: which parameter (if any) makes the call fail
 	failAt := -1
+	bound := make([]bool, k) // parameter gets a value
+	texts := make([]string, k)
 	for i := 0; i < k && failAt < 0; i++ {
 		prm := mfd.Parameters[i]
-		var text string
 		switch {
 		case i < nargs:
-			text = args[i]
+			texts[i] = args[i]
 		case prm.Optional && prm.HasDefault:
-			text = prm.Default
+			texts[i] = prm.Default
 		case prm.Optional:
-			// stays unset
-			_, gerr := p.Variables.GetString(prm.Name)
-			_ = gerr
-			continue
+			continue // stays unset
 		default:
-			// mandatory and missing, no terminal to ask on: the call must fail
-			failAt = i
+			failAt = i // mandatory and missing, nobody to ask
 			continue
 		}
 		if prm.DataType == types.Integer || prm.DataType == types.Number {
-			conv := false
-			for j := range verifC23pool {
-				if verifC23pool[j].text == text {
-					conv = verifC23pool[j].isNum
-				}
-			}
-			if !conv {
+			if !verifC23pool[verifC23poolIndex(texts[i])].isNum {
 				failAt = i
+				continue
 			}
 		}
+		bound[i] = true
 	}
 
 	if failAt >= 0 {
@@ -575,57 +611,39 @@ func VerifC23Bind() {
 		rt.Assert(err == nil, "binding failed although every argument is convertible")
 	}
 
-	last := k
-	if failAt >= 0 {
-		last = failAt
-	}
 	for i := 0; i < k; i++ {
 		prm := mfd.Parameters[i]
 		val, gerr := p.Variables.GetValue(prm.Name)
 		str, serr := p.Variables.GetString(prm.Name)
-		if i >= last {
-			// the call failed at or before this parameter: the body never runs; nothing may
-			// have been bound beyond the failing parameter
-			rt.Assert(gerr != nil && val == nil && serr != nil, "a parameter at or after the failing one was bound")
+		if !bound[i] {
+			if failAt < 0 || i < failAt {
+				rt.Reach("optional-unset")
+			}
+			rt.Assert(gerr != nil && val == nil, "a parameter that must stay unset has a value")
+			rt.Assert(serr != nil, "a parameter that must stay unset reads as a value")
 			continue
 		}
-		var text string
-		switch {
-		case i < nargs:
-			text = args[i]
-		case prm.HasDefault:
-			text = prm.Default
-		default:
-			rt.Reach("optional-unset")
-			rt.Assert(gerr != nil && val == nil, "a missing optional parameter without default is set")
-			rt.Assert(serr != nil, "a missing optional parameter without default reads as a value")
-			continue
-		}
+		text := texts[i]
 		rt.Assert(gerr == nil && serr == nil, "a bound parameter cannot be read")
 		rt.Assert(p.Variables.GetDataType(prm.Name) == prm.DataType, "bound variable does not have the declared type")
-		switch prm.DataType {
-		case types.String:
+		if prm.DataType == types.String {
 			s, ok := val.(string)
 			rt.Assert(ok, "str parameter is not held as a string")
 			rt.Assert(s == text, "str parameter differs from the argument")
 			rt.Assert(str == text, "str parameter prints differently from the argument")
-		default:
-			for j := range verifC23pool {
-				if verifC23pool[j].text != text {
-					continue
-				}
-				switch prm.DataType {
-				case types.Integer:
-					n, ok := val.(int)
-					rt.Assert(ok && n == verifC23pool[j].intVal, "int parameter is not the argument converted to an integer")
-				case types.Number:
-					f, ok := val.(float64)
-					rt.Assert(ok && f == verifC23pool[j].numVal, "num parameter is not the argument converted to a number")
-				case types.Boolean:
-					b, ok := val.(bool)
-					rt.Assert(ok && b == verifC23pool[j].truthy, "bool parameter is not the argument's truth value")
-				}
-			}
+			continue
+		}
+		e := verifC23pool[verifC23poolIndex(text)]
+		switch prm.DataType {
+		case types.Integer:
+			n, ok := val.(int)
+			rt.Assert(ok && n == e.intVal, "int parameter is not the argument converted to an integer")
+		case types.Number:
+			f, ok := val.(float64)
+			rt.Assert(ok && f == e.numVal, "num parameter is not the argument converted to a number")
+		case types.Boolean:
+			b, ok := val.(bool)
+			rt.Assert(ok && b == e.truthy, "bool parameter is not the argument's truth value")
 		}
 	}
 }
